@@ -53,6 +53,19 @@ def families(tier):
             # await an inner node from outside: main gets hold of C1 once it exists
             main = [('disp', 'A', 'P', 'ff'), ('pause',), ('await', 'C1<hp:P'), ('await', 'P')]
         add('c03.tree', f'{m1}{b1}-t{int(two)}-g{gmode}{gbus}-{leaf}-{target}', buses, hs, main, [stall_actor], leaf=leaf)
+    # forwarded descendants: the child (awaited or not) is forwarded to a second bus whose handlers pause
+    for m1, fwd_what, down, target, two in itertools.product(['ff', 'await', 'late'], ['all', 'child_only'], ['pause', 'ret', 'g_ff'], ['root', 'inner'], (False, True)):
+        if not deep and two and down == 'ret':
+            continue
+        hp = [('disp', 'A', 'C1', m1)] + ([('disp', 'A', 'C2', 'ff')] if two else []) + ([('pause',), ('await', 'C1')] if m1 == 'late' else [])
+        downprog = {'pause': [('pause',)], 'ret': [('ret', 1)], 'g_ff': [('disp', 'B', 'G', 'ff'), ('pause',)]}[down]
+        hs = [dict(bus='A', pat='P', name='hp', prog=hp), dict(bus='A', pat='C', name='hcA', prog=[('ret', 0)]), dict(bus='B', pat='C', name='hcB', prog=downprog),
+              dict(bus='B', pat='G', name='hgB', prog=[('pause',)]), dict(bus='A', pat='X', name='hx', prog=[('ret', 0)]), dict(bus='B', pat='P', name='hpB', prog=[('ret', 0)])]
+        main = [('disp', 'A', 'P', 'await')] if target == 'root' else [('disp', 'A', 'P', 'ff'), ('pause',), ('await', 'C1<hp:P'), ('await', 'P')]
+        for o in (['A', 'B'], ['B', 'A']):
+            out.append(dict(prop='C03', family='c03.forwarded', id=f'c03.forwarded/{m1}-{fwd_what}-{down}-{target}-t{int(two)}-o{"".join(o)}', cfg=cfg, params=dict(leaf=down),
+                            scn=dict(buses={'A': {}, 'B': {}}, order=o, handlers=hs, main=main, actors=[stall_actor], settle=2.0,
+                                     forwards=[('A', 'B')] if fwd_what == 'all' else [], fwd_types=[('A', 'C', 'B')] if fwd_what == 'child_only' else [])))
     # self-recursion: hr(R d) dispatches R(d+1) while d < maxdepth
     for maxd, mode, extra in itertools.product((1, 2, 3, 4), ('ff', 'await'), (False, True)):
         hs = [dict(bus='A', pat='R', name='hr', prog=[('recurse', 'A', mode, maxd)] + ([('pause',)] if extra else []))]
@@ -91,6 +104,11 @@ def oracle(spec, res):
                if not (Trace.st_complete if d == a['ev'] else Trace.st_done)(tr.state_at(d, a['end']))]
         if bad:
             out.append(V('returned_before_tree_done', f'await {a["ev"]} returned at seq {a["end"]} with {bad}', recursion_guard=deep_rec))
+        # harness-side completeness: on every bus a tree member was accepted on (dispatch or forwarding), its handlers there have finished
+        pend = [(d, tr.unprocessed(spec['scn'], d, a['end'])) for d in sorted(tr.desc(a['ev'], upto_seq=a['end']))]
+        pend = [(d, u) for d, u in pend if u]
+        if pend and not bad:
+            out.append(V('returned_before_tree_done_on_every_bus', f'await {a["ev"]} returned at seq {a["end"]}; still to run: {pend}', recursion_guard=deep_rec))
         rel = tr.desc(a['ev'])
         late = [en for en in tr.enters if en[0] > a['end'] and en[4] in rel]
         if late:
